@@ -61,6 +61,8 @@ def gram_passes(pid, tier):
         P.append(('NT2 T2 R<=4 W<=5 L<=3, strings<=%d' % (4 if q else 5), base + ['--nt', '2', '--t', '2', '--err', '0', '--maxR', '4', '--maxlen', '4' if q else '5']))
         if pid in ('C01', 'C11', 'C12', 'C02', 'C09'):
             P.append(('NT2 T3 R<=3 W<=5, strings<=%d' % (3 if q else 4), base + ['--nt', '2', '--t', '3', '--err', '0', '--maxR', '3', '--maxlen', '3' if q else '4']))
+        if pid == 'C11':
+            P.append(('S/R grammars NT2 T2 R<=3 under every precedence/associativity assignment (both preferences)', base + ['--nt', '2', '--t', '2', '--err', '0', '--maxR', '3', '--maxlen', '0', '--with-prec', '--prec-levels', '2', '--rprec-max', '1']))
         P.append(('seed grammars (witnesses of repaired defects)', base + ['--maxlen', '4', '--max-per-frame', '0', '--seeds', os.path.join(VERIF, 'seeds', 'gram_seeds.txt')]))
         if not q:
             P.append(('NT3 T2 R<=4, strings<=4', base + ['--nt', '3', '--t', '2', '--err', '0', '--maxlen', '4']))
@@ -193,7 +195,7 @@ def rx_passes(pid, tier):
         return [('pattern ASTs up to %d nodes over 9 atom pools (2-3 atoms; * + ? {0..3} group cat alt); strings<=%d over byte-class representatives; pair BFS over all 256 bytes' % (4 if q else 5, 4),
                  ['--mode', 'c03', '--K', '4' if q else '5', '--maxlen', '4'])]
     if pid == 'C04':
-        P = [('ordered term sets of size<=2 from a pool of %d term specs x inputs<=%d over {a,b,c,space,\\n,\\t} x 3 whitespace option combinations' % (12 if q else 30, 4 if q else 5),
+        P = [('ordered term sets of size<=2 from a pool of %d term specs x inputs<=%d over {a,b,c,space,\\n,\\t,\\r,\\v} x 3 whitespace option combinations' % (12 if q else 30, 4 if q else 5),
               ['--mode', 'c04', '--setsize', '2', '--pool', '0' if q else '1', '--maxlen', '4' if q else '5'])]
         if not q: P.append(('ordered term sets of size 3 from the 12-spec pool x inputs<=4', ['--mode', 'c04', '--setsize', '3', '--pool', '0', '--maxlen', '4']))
         return P
